@@ -120,6 +120,55 @@ func genC04(env *core.Env, emit func(core.Case)) {
 				return h.Record(0x0301)
 			})
 		}
+		// R2b the same rule when the outer hello does not even offer TLS 1.3 (no supported_versions, or
+		// only older versions): with keys configured an outer "type inner" extension is still fatal
+		{
+			plan, key := mkPlan()
+			variant := rep % 3
+			run("typeInnerWithKeys", fmt.Sprintf("no-tls13-%d", variant), []string{"illegal"}, plan, key, true, func(rec []byte) []byte {
+				h, _, _ := gen.ParseRecord(rec)
+				_, i := gen.FindECH(h)
+				h.Exts[i] = gen.ECHInner()
+				for j := 0; j < len(h.Exts); j++ {
+					if h.Exts[j].Type == 43 {
+						switch variant {
+						case 0:
+							h.Exts = slices.Delete(h.Exts, j, j+1)
+							j--
+						case 1:
+							h.Exts[j] = gen.Versions(0x0303, 0x0302)
+						default:
+							h.Exts[j] = gen.Versions()
+						}
+					}
+				}
+				return h.Record(0x0301)
+			})
+		}
+		// the rules that apply to a retried hello (hello, HelloRetryRequest, second hello): same alerts
+		for _, rc := range retryCases(r) {
+			if rc.Class == "" {
+				continue
+			}
+			idx++
+			s, first, rd := runRetryCase(rc, 70000)
+			w := ""
+			if first.Err != "-" || !first.Accepted {
+				w = "first hello of the retry history not accepted: " + first.Err
+			} else if rd.Err != rc.Class {
+				w = fmt.Sprintf("retried hello %s: error class %s, want %s (%d bytes delivered)", rc.Kind, rd.Err, rc.Class, len(rd.Data))
+			} else if want := []byte{0x15, 3, 3, 0, 2, 2, alertOf[rc.Class]}; !bytes.Equal(rd.Out, want) {
+				w = fmt.Sprintf("retried hello %s: client received %x, want fatal alert %x", rc.Kind, rd.Out, want)
+			} else if !rd.Closed {
+				w = "alert sent but the client connection was not closed"
+			} else if len(rd.Data) != 0 {
+				w = "bytes of an ill-formed retried hello were delivered to the backend"
+			}
+			s.X("retried hello "+rc.Kind+": aborted with the mandated alert, nothing forwarded", w)
+			emit(core.Case{Name: fmt.Sprintf("retry-%s/%d", rc.Kind, idx), Stream: "retry-rules", Ops: s.Ops, Key: "retry-" + rc.Kind + "/" + rd.Err,
+				Sig: fmt.Sprintf("retry-%s/%s", rc.Kind, rd.Err), Sample: map[string]any{"rule": "retry-" + rc.Kind, "outcome": rd.Err, "alert": fmt.Sprintf("%x", rd.Out), "closed": rd.Closed}})
+			env.Count("retry-" + rc.Kind + "/" + rd.Err)
+		}
 		// R4 sniNotPublicName
 		{
 			plan, key := mkPlan()
